@@ -463,6 +463,19 @@ theorem c12_ts_taylor_computable_multi (parts : List C12.Part) (ll : ℝ)
 end deriv
 
 example : ∃ X ∈ ([0.1, -0.05] : List ℝ), X ≠ 0 := ⟨0.1, by simp, by norm_num⟩
+/-- first disjunct of `c12_nsgrad2_neg`: a pure-background event -/
+example : (1 : ℕ) < 4 ∧ (1 : ℕ) ≤ 4 ∧ ((4 : ℕ) : ℝ) ≠ 0 := by norm_num
+/-- hypotheses of `c12_nsgrad2_multi_nonpos` / `c12_nsgrad2_multi_neg` on two datasets -/
+example : (∀ g ∈ ([-1, -1 / 2] : List ℝ), g ≤ 0) ∧
+    ∃ q ∈ List.zip ([-1, -1 / 2] : List ℝ) ([1 / 3, 2 / 3] : List ℝ), q.1 < 0 ∧ q.2 ≠ 0 := by
+  refine ⟨?_, ((-1 : ℝ), (1 / 3 : ℝ)), by simp, by norm_num, by norm_num⟩
+  intro g hg; simp at hg; rcases hg with rfl | rfl <;> norm_num
+/-- `c12_nsgrad2_degenerate` / the flat branch of `c12_ts_taylor_computable`: three events with ratio 1 -/
+example : ∀ X ∈ ([0, 0, 0] : List ℝ), X = 0 := by intro X hX; simp at hX; exact hX
+/-- hypotheses of `c12_ts_taylor_computable_multi` -/
+example : ∀ p ∈ ([{ N := 4, nSel := 1, Xs := [1 / 4], f := 1 / 2 }, { N := 2, nSel := 2, Xs := [0, 0], f := 1 / 2 }] : List C12.Part),
+    0 < p.N ∧ p.nSel ≤ p.N := by
+  intro p hp; simp at hp; rcases hp with rfl | rfl <;> norm_num
 /-- the guards of the derivative theorems at a non-trivial point: 4 events, one selected, `ns = 1` -/
 example : (0 < 4) ∧ ((4 : ℕ) : ℝ) ≠ 1 ∧ ∀ X ∈ ([1 / 4] : List ℝ), 1 + (1 : ℝ) * X ≠ 0 := by
   refine ⟨by norm_num, by norm_num, ?_⟩
